@@ -183,6 +183,20 @@ class _Tracer(ast.NodeTransformer):
 def add_tracing(source):
     tree = ast.parse(source)
     tree = _Tracer().visit(tree)
+    # the inserted calls need a module-level `log`
+    bound = set()
+    for st in tree.body:
+        if isinstance(st, (ast.Import, ast.ImportFrom)):
+            bound.update((al.asname or al.name).split('.')[0] for al in st.names)
+        elif isinstance(st, ast.Assign):
+            bound.update(x.id for t in st.targets for x in ast.walk(t) if isinstance(x, ast.Name))
+    if 'log' not in bound:
+        at = 0
+        for i, st in enumerate(tree.body):
+            if (isinstance(st, ast.Expr) and isinstance(st.value, ast.Constant) and isinstance(st.value.value, str) and i == 0) or \
+                    (isinstance(st, ast.ImportFrom) and st.module == '__future__'):
+                at = i + 1
+        tree.body.insert(at, ast.ImportFrom(module='twisted.python', names=[ast.alias(name='log', asname=None)], level=0))
     ast.fix_missing_locations(tree)
     return ast.unparse(tree)
 
